@@ -419,4 +419,254 @@ theorem for1_foldS (sc : Sc) (xp : Int) (labels : List Nat) (es : WEdges) (query
     · simp only [List.foldlM_cons, e1, Res.ok_bind]; exact e2
     · rw [el2, el]; cases order <;> simp [List.getLastD]
 
+theorem scs_eq_of (a b : List Cell) (hl : a.length = b.length)
+    (h : ∀ k, k < a.length → (a.getD k mcell).score = (b.getD k mcell).score) : scs a = scs b := by
+  apply List.ext_getElem
+  · simp [scs, hl]
+  · intro i h1 h2
+    simp only [scs, List.length_map] at h1 h2
+    have := h i h1
+    simp only [List.getD_eq_getElem?_getD, List.getElem?_eq_getElem h1, List.getElem?_eq_getElem h2, Option.getD_some] at this
+    simpa [scs] using this
+
+/-- X suffix clipping (`custom_for4`) over the columns `col ..`, on scores -/
+theorem for4_foldS (w : Nat → Nat → Int) (xs : Int) (L n : Nat) (tb0 : Rs.Poa.Traceback) (M0 : List Row)
+    (hL : L + 1 < 2 ^ 64) (hlen : L + 1 < M0.length) (htl : tb0.last = L) (junk : List Cell) :
+    ∀ (mcs : List (Int × Nat)) (col : Nat) (preS sufS cs : List Cell) (mir : Int × Nat) (rest : List Cell) (mir' : Int × Nat),
+    preS.length = col → sufS.length = mcs.length → cs.length = mcs.length → col + mcs.length = n + 1 → scs sufS = scs cs →
+    xSuffixC xs (L + 1) col mcs cs mir = some (rest, mir') →
+    ∃ restS, scs restS = scs rest ∧ restS.length = sufS.length ∧
+      List.foldlM (custom_for4 w xs) ({ tb0 with matrix := M0.set (L + 1) (preS ++ sufS ++ junk, 0, n + 1) }, mir) (Rs.enumFrom col mcs) =
+        ok ({ tb0 with matrix := M0.set (L + 1) (preS ++ restS ++ junk, 0, n + 1) }, mir')
+  | [], col, preS, sufS, cs, mir, rest, mir', hpre, hsuf, hcs, hcol, hsc, h => by
+    cases sufS with
+    | cons a l => simp at hsuf
+    | nil =>
+      cases cs with
+      | cons a l => simp at hcs
+      | nil =>
+        simp only [xSuffixC, Option.some.injEq, Prod.mk.injEq] at h
+        obtain ⟨rfl, rfl⟩ := h
+        exact ⟨[], rfl, rfl, by simp [Rs.enumFrom]⟩
+  | mc :: mcs, col, preS, sufS, cs, mir, rest, mir', hpre, hsuf, hcs, hcol, hsc, h => by
+    cases sufS with
+    | nil => simp at hsuf
+    | cons a sufS =>
+      cases cs with
+      | nil => simp at hcs
+      | cons c cs =>
+        simp only [List.length_cons] at hsuf hcs hcol
+        simp only [scs, List.map_cons, List.cons.injEq] at hsc
+        obtain ⟨hac, hsc'⟩ := hsc
+        generalize htb : ({ tb0 with matrix := M0.set (L + 1) (preS ++ a :: sufS ++ junk, 0, n + 1) } : Rs.Poa.Traceback) = tb
+        have hmat : tb.matrix = M0.set (L + 1) (preS ++ a :: sufS ++ junk, 0, n + 1) := by rw [← htb]
+        have hlast : tb.last = L := by rw [← htb]; exact htl
+        have hrow : tb.matrix[L + 1]? = some (preS ++ a :: sufS ++ junk, 0, n + 1) := by rw [hmat]; simp [List.getElem?_set, hlen]
+        have hcolget : (preS ++ a :: sufS ++ junk)[col]? = some a := by
+          rw [← hpre, List.append_assoc]; exact getElem?_append_len preS a (sufS ++ junk)
+        have hg : Traceback_get tb (L + 1) col = ok a := by
+          rw [get_inband tb (L + 1) col _ 0 (n + 1) hrow (by omega) (by omega) (by simp; omega)]
+          simp only [List.getD_eq_getElem?_getD, Nat.sub_zero, hcolget, Option.getD_some]
+        simp only [Rs.enumFrom, List.foldlM_cons]
+        by_cases hskip : mc.2 = L + 1
+        · simp only [xSuffixC, hskip, if_true] at h
+          cases hr : xSuffixC xs (L + 1) (col + 1) mcs cs mir with
+          | none => rw [hr] at h; cases h
+          | some pr =>
+            obtain ⟨rest1, mir1⟩ := pr
+            rw [hr] at h
+            simp only [Option.some.injEq, Prod.mk.injEq] at h
+            obtain ⟨rfl, rfl⟩ := h
+            obtain ⟨restS, e1, e2, ih⟩ := for4_foldS w xs L n tb0 M0 hL hlen htl junk mcs (col + 1) (preS ++ [a]) sufS cs mir rest1 mir1
+              (by simp [hpre]) (by omega) (by omega) (by omega) (by simpa [scs] using hsc') hr
+            refine ⟨a :: restS, by simp only [scs, List.map_cons, hac] at e1 ⊢; rw [e1], by simp [e2], ?_⟩
+            have e : custom_for4 w xs (tb, mir) (col, mc) = ok (tb, mir) := by
+              unfold custom_for4
+              obtain ⟨m1, m2⟩ := mc
+              simp only at hskip
+              simp only [hlast, Rs.add_ok hL, Res.ok_bind, hskip, decide_true, if_true, Res.pure_eq_ok]
+            rw [e]
+            simp only [Res.ok_bind, ← htb]
+            simp only [List.append_assoc, List.singleton_append, List.cons_append, List.nil_append] at ih ⊢
+            exact ih
+        · simp only [xSuffixC, hskip, if_false] at h
+          cases ha : I32.add mc.1 xs with
+          | none => rw [ha] at h; cases h
+          | some s =>
+            rw [ha] at h
+            simp only at h
+            cases hr : xSuffixC xs (L + 1) (col + 1) mcs cs
+                (if mir.1 < (cmax c ⟨s, .x mc.2⟩).score then ((cmax c ⟨s, .x mc.2⟩).score, col) else mir) with
+            | none => rw [hr] at h; cases h
+            | some pr =>
+              obtain ⟨rest1, mir1⟩ := pr
+              rw [hr] at h
+              simp only [Option.some.injEq, Prod.mk.injEq] at h
+              obtain ⟨rfl, rfl⟩ := h
+              have esc : (cmax a ⟨s, .x mc.2⟩).score = (cmax c ⟨s, .x mc.2⟩).score := by simp only [cmax_score, hac]
+              obtain ⟨restS, e1, e2, ih⟩ := for4_foldS w xs L n tb0 M0 hL hlen htl junk mcs (col + 1) (preS ++ [cmax a ⟨s, .x mc.2⟩]) sufS cs _ rest1 mir1
+                (by simp [hpre]) (by omega) (by omega) (by omega) (by simpa [scs] using hsc') hr
+              refine ⟨cmax a ⟨s, .x mc.2⟩ :: restS, by simp only [scs, List.map_cons, esc] at e1 ⊢; rw [e1], by simp [e2], ?_⟩
+              have hsetl : (preS ++ a :: sufS ++ junk).set col (cmax a ⟨s, .x mc.2⟩) = preS ++ cmax a ⟨s, .x mc.2⟩ :: sufS ++ junk := by
+                rw [← hpre]
+                simp only [List.append_assoc, List.cons_append]
+                exact set_append_len preS a _ (sufS ++ junk)
+              have hset : Traceback_set tb (L + 1) col (cmax a ⟨s, .x mc.2⟩) =
+                  ok { tb0 with matrix := M0.set (L + 1) (preS ++ cmax a ⟨s, .x mc.2⟩ :: sufS ++ junk, 0, n + 1) } := by
+                rw [set_eq tb (L + 1) col _ _ 0 (n + 1) hrow (by omega) (by omega) (by simp; omega)]
+                simp only [Nat.sub_zero, hsetl, hmat, List.set_set]
+                rw [← htb]
+              have e : custom_for4 w xs (tb, mir) (col, mc) =
+                  ok ({ tb0 with matrix := M0.set (L + 1) (preS ++ cmax a ⟨s, .x mc.2⟩ :: sufS ++ junk, 0, n + 1) },
+                    if mir.1 < (cmax c ⟨s, .x mc.2⟩).score then ((cmax c ⟨s, .x mc.2⟩).score, col) else mir) := by
+                unfold custom_for4
+                obtain ⟨m1, m2⟩ := mc
+                simp only at hskip ha
+                simp only [hlast, Rs.add_ok hL, Res.ok_bind, hskip, decide_false, Bool.false_eq_true, if_false, hg, iadd32_some ha,
+                  Res.pure_eq_ok, hset, esc]
+                by_cases hlt : mir.1 < (cmax c ⟨s, .x m2⟩).score <;> simp [hlt]
+              rw [e]
+              simp only [Res.ok_bind]
+              simp only [List.append_assoc, List.singleton_append, List.cons_append, List.nil_append] at ih ⊢
+              exact ih
+
+theorem getLastD_mem : ∀ (l : List Nat) (d : Nat), l ≠ [] → l.getLastD d ∈ l
+  | [], _, h => absurd rfl h
+  | [a], _, _ => by simp [List.getLastD]
+  | a :: b :: l, d, _ => by
+    have := getLastD_mem (b :: l) a (by simp)
+    simp only [List.getLastD_cons] at this ⊢
+    exact List.mem_cons_of_mem _ this
+
+theorem brow_get_inband (br : BRow) (j : Nat) (h0 : br.start = 0) (h1 : j < br.stop) (hne : br.cells ≠ []) :
+    br.get j = br.cells.getD j mcell := by
+  unfold BRow.get
+  have : (decide (br.start ≤ j) && decide (j < br.stop) && !br.cells.isEmpty) = true := by
+    cases hc : br.cells with
+    | nil => exact absurd hc hne
+    | cons a l => simp [h0, h1]
+  rw [if_pos this, h0, Nat.sub_zero]
+
+/-- **the translated `Poa::custom` reports the score of the checked-`i32` mirror** (decomposed form of `customTableC = some t`) -/
+theorem custom_score_core (sc : Sc) (xp xs yp ys : Int) (labels : List Nat) (es : WEdges) (query : List Nat) (r0 : BRow)
+    (st : CState) (cells1 : List Cell) (mir : Int × Nat) (s : Int)
+    (hne : labels ≠ []) (hm : labels.length + 1 < 2 ^ 64) (hn : query.length + 1 < 2 ^ 64)
+    (hpreds : ∀ v, ∀ p ∈ inN es v, p < labels.length ∧ p ≠ v)
+    (hnd : (topo labels.length es).Nodup) (hlt : ∀ v ∈ topo labels.length es, v < labels.length)
+    (htopo : topo labels.length es ≠ [])
+    (h0 : bRow0C sc.gap yp query.length = some r0)
+    (hst : foldlC (cStepC sc xp labels es query r0)
+      { rows := Array.replicate labels.length (emptyRow query.length), maxcol := List.replicate (query.length + 1) ((0 : Int), 0) }
+      (topo labels.length es) = some st)
+    (hx : xSuffixC xs ((topo labels.length es).getLastD 0 + 1) 0 st.maxcol
+      ((List.range (query.length + 1)).map (st.rows.getD ((topo labels.length es).getLastD 0) (emptyRow query.length)).get) (0, 0) =
+      some (cells1, mir))
+    (hy : I32.add mir.1 ys = some s) :
+    ∃ tb, custom sc.w ⟨labels, es⟩ sc.gap xp xs yp ys query = ok tb ∧ tb.last = (topo labels.length es).getLastD 0 ∧
+      tb.cols = query.length ∧ tb.rows = labels.length ∧
+      ∃ c, Traceback_get tb ((topo labels.length es).getLastD 0 + 1) query.length = ok c ∧
+        c.score = (if mir.2 ≠ query.length then cmax (cells1.getD query.length mcell) ⟨s, .y mir.2 query.length⟩
+          else cells1.getD query.length mcell).score := by
+  generalize hL : (topo labels.length es).getLastD 0 = L at *
+  generalize hnq : query.length = n at *
+  obtain ⟨hs0, hs1, hs2⟩ := bRow0C_shape h0
+  -- the table after `with_capacity` and `initialize_scores`
+  have hinit := init_eq labels.length n sc.gap yp r0 h0 hn hm
+  have hwc : Traceback_with_capacity labels.length n =
+      ok { rows := labels.length, cols := n, last := 0, matrix := List.replicate (labels.length + 1) ([], 0, n + 1) } := by
+    unfold Traceback_with_capacity
+    simp only [Rs.add_ok hn, Rs.add_ok hm, Res.ok_bind, Res.pure_eq_ok]
+  rw [hwc] at hinit
+  simp only [Res.ok_bind] at hinit
+  have hinv : MInvS ((r0.cells, 0, n + 1) :: List.replicate labels.length (([] : List Cell), 0, n + 1)) r0
+      (Array.replicate labels.length (emptyRow n)) n (topo labels.length es) [] := by
+    refine ⟨by simp, ⟨_, rfl, ⟨hs0.symm, hs1.symm, Iff.rfl, fun _ => by simp only; omega, fun _ => rfl⟩⟩, ?_, ?_, by simp⟩
+    · intro v hv
+      simp only [Array.size_replicate] at hv
+      refine ⟨([], 0, n + 1), by simp [List.getElem?_replicate, hv], ?_⟩
+      have : (Array.replicate labels.length (emptyRow n)).getD v (emptyRow n) = emptyRow n := by simp [Array.getD, hv]
+      rw [this]
+      exact ⟨rfl, rfl, Iff.rfl, fun hh => absurd rfl hh, fun _ => rfl⟩
+    · intro v hv
+      simp [List.getElem?_replicate, hlt v hv]
+  have hq : query.length = n := hnq
+  obtain ⟨tb1, e1, er1, ec1, el1, hsz1, hmic1, hinv1⟩ := for1_foldS sc xp labels es query r0 hm (by omega) hpreds (topo labels.length es)
+    { rows := Array.replicate labels.length (emptyRow query.length), maxcol := List.replicate (query.length + 1) ((0 : Int), 0) } st
+    { rows := labels.length, cols := n, last := 0,
+      matrix := (r0.cells, 0, n + 1) :: List.replicate labels.length ([], 0, n + 1) } []
+    hnd (fun v hv => ⟨hlt v hv, by simp⟩) (by simp) (by simp [hq]) (by rw [hq]; exact hinv) (by rw [hq]; exact hst)
+  rw [hq] at e1 hmic1 hinv1
+  simp only [List.append_nil] at hinv1
+  have hLmem : L ∈ topo labels.length es := by rw [← hL]; exact getLastD_mem _ _ htopo
+  have hLlt : L < labels.length := hlt L hLmem
+  have htl1 : tb1.last = L := by rw [el1]; cases htp : topo labels.length es with
+    | nil => exact absurd htp htopo
+    | cons a l => rw [htp] at hL; simpa [List.getLastD] using hL
+  obtain ⟨csL, hrowL, hcsLlen, hmodlen⟩ := hinv1.vis L (by simpa using hLmem)
+  obtain ⟨rrL, hrr, hrepL⟩ := hinv1.rws L (by omega)
+  rw [hrowL] at hrr
+  simp only [Option.some.injEq] at hrr
+  subst hrr
+  have hLlen : L + 1 < tb1.matrix.length := lt_of_getElem? hrowL
+  -- the last row as prefix ++ junk
+  have hsplit : csL = [] ++ csL.take (n + 1) ++ csL.drop (n + 1) := by simp
+  have hmodne : (st.rows.getD L (emptyRow n)).cells ≠ [] := by intro hh; rw [hh] at hmodlen; simp at hmodlen
+  have hscs : scs (csL.take (n + 1)) = scs ((List.range (n + 1)).map (st.rows.getD L (emptyRow n)).get) := by
+    apply scs_eq_of
+    · simp [hcsLlen]
+    · intro k hk
+      simp only [List.length_take, hcsLlen] at hk
+      have hk' : k < n + 1 := by omega
+      have e1 : ((List.range (n + 1)).map (st.rows.getD L (emptyRow n)).get).getD k mcell = (st.rows.getD L (emptyRow n)).get k := by
+        simp [List.getD, hk']
+      rw [e1, brow_get_inband _ k hrepL.start.symm (by rw [← hrepL.stop]; exact hk') hmodne, ← hrepL.cells k]
+      simp [List.getD, List.getElem?_take, hk']
+  have htb1 : tb1 = { tb1 with matrix := tb1.matrix.set (L + 1) ([] ++ csL.take (n + 1) ++ csL.drop (n + 1), 0, n + 1) } := by
+    rw [← hsplit, set_self_of_getElem? hrowL]
+  obtain ⟨restS, ers, erl, e4⟩ := for4_foldS sc.w xs L n tb1 tb1.matrix (by omega) hLlen htl1 (csL.drop (n + 1)) st.maxcol 0 []
+    (csL.take (n + 1)) _ (0, 0) cells1 mir rfl (by simp [hcsLlen, hmic1]) (by simp [hmic1]) (by simp [hmic1]) hscs hx
+  rw [← htb1] at e4
+  simp only [List.nil_append] at e4
+  have hrl : restS.length = n + 1 := by rw [erl]; simp [hcsLlen]
+  generalize htb2 : ({ tb1 with matrix := tb1.matrix.set (L + 1) (restS ++ csL.drop (n + 1), 0, n + 1) } : Rs.Poa.Traceback) = tb2 at e4
+  have hmat2 : tb2.matrix = tb1.matrix.set (L + 1) (restS ++ csL.drop (n + 1), 0, n + 1) := by rw [← htb2]
+  have hrow2 : tb2.matrix[L + 1]? = some (restS ++ csL.drop (n + 1), 0, n + 1) := by rw [hmat2]; simp [List.getElem?_set, hLlen]
+  have hlast2 : tb2.last = L := by rw [← htb2]; exact htl1
+  obtain ⟨c41, hc41⟩ : ∃ c41, restS[n]? = some c41 := ⟨restS[n]'(by omega), List.getElem?_eq_getElem (by omega)⟩
+  have hc41' : (restS ++ csL.drop (n + 1))[n]? = some c41 := by rw [List.getElem?_append_left (by omega)]; exact hc41
+  have hg41 : Traceback_get tb2 (L + 1) n = ok c41 := by
+    rw [get_inband tb2 (L + 1) n _ 0 (n + 1) hrow2 (by omega) (by omega) (by simp; omega)]
+    simp only [List.getD_eq_getElem?_getD, Nat.sub_zero, hc41', Option.getD_some]
+  have hc41s : c41.score = (cells1.getD n mcell).score := by
+    have := scs_getD ers n
+    simpa [List.getD, hc41] using this
+  -- run the function
+  have hassert : Rs.assert (decide (Rs.Poa.nodeCount (⟨labels, es⟩ : G) ≠ 0)) = ok () := by
+    apply Rs.assert_ok
+    cases labels with
+    | nil => exact absurd rfl hne
+    | cons a l => simp [Rs.Poa.nodeCount]
+  have hfold : List.foldlM (custom_for1 sc.w ⟨labels, es⟩ sc.gap xp query n)
+      (List.replicate (n + 1) ((0 : Int), 0), (⟨labels.length, n, 0, (r0.cells, 0, n + 1) :: List.replicate labels.length ([], 0, n + 1)⟩ : Rs.Poa.Traceback))
+      (Rs.Poa.topoOrder ⟨labels, es⟩) = ok (st.maxcol, tb1) := e1
+  unfold custom
+  simp only [hassert, Res.ok_bind, Rs.Poa.nodeCount, hq, Rs.add_ok hn, hwc, hinit, hfold, enumerate_eq, e4, hlast2, Rs.add_ok (show L + 1 < 2 ^ 64 by omega),
+    hg41, iadd32_some hy]
+  by_cases hmn : mir.2 = n
+  · refine ⟨tb2, by simp [hmn, hne, Rs.assert], hlast2, by rw [← htb2, ec1], by rw [← htb2, er1], c41, hg41, ?_⟩
+    simp [hmn, hc41s]
+  · have hsetl : (restS ++ csL.drop (n + 1)).set n (cmax c41 ⟨s, .y mir.2 n⟩) =
+        restS.set n (cmax c41 ⟨s, .y mir.2 n⟩) ++ csL.drop (n + 1) := by
+      rw [List.set_append_left _ _ (by omega)]
+    have hset : Traceback_set tb2 (L + 1) n (cmax c41 ⟨s, .y mir.2 n⟩) =
+        ok { tb2 with matrix := tb2.matrix.set (L + 1) (restS.set n (cmax c41 ⟨s, .y mir.2 n⟩) ++ csL.drop (n + 1), 0, n + 1) } := by
+      rw [set_eq tb2 (L + 1) n _ _ 0 (n + 1) hrow2 (by omega) (by omega) (by simp; omega)]
+      simp only [Nat.sub_zero, hsetl]
+    refine ⟨{ tb2 with matrix := tb2.matrix.set (L + 1) (restS.set n (cmax c41 ⟨s, .y mir.2 n⟩) ++ csL.drop (n + 1), 0, n + 1) },
+      by simp [hmn, hset, hne, Rs.assert], hlast2, by rw [← htb2, ec1], by rw [← htb2, er1], cmax c41 ⟨s, .y mir.2 n⟩, ?_, ?_⟩
+    · rw [get_inband _ (L + 1) n (restS.set n (cmax c41 ⟨s, .y mir.2 n⟩) ++ csL.drop (n + 1)) 0 (n + 1)
+        (by simp only; exact set_get_self hrow2) (by omega) (by omega) (by simp; omega)]
+      simp [List.getD, List.getElem?_append_left, hrl]
+    · simp [hmn, cmax_score, hc41s]
+
 end RbV.Thm.GenSrcPoaScore
